@@ -269,7 +269,16 @@ def cleanup(ctx: Ctx) -> None:
     m = repo.module(A.PLAN)
     vals = m.assigns.get("CONTEXT_ID", [])
     ok = len(vals) == 1 and any(isinstance(x, ast.Call) and attr_chain(x.func) in ("uuid.uuid4", "uuid.uuid1") for x in ast.walk(vals[0]))
-    ctx.ob(A.PLAN, vals[0] if vals else None, ok, "CONTEXT_ID contains a per-process unique token (uuid)", sel="cleanup:context-id", loc=f"{m.relpath}:{getattr(vals[0], 'lineno', 1) if vals else 1}")
+    inherited = [x for v in vals for x in ast.walk(v) if (isinstance(x, ast.Call) and (attr_chain(x.func) or "").startswith(("os.environ", "os.getenv"))) or (isinstance(x, ast.Subscript) and (attr_chain(x.value) or "") == "os.environ")]
+    ctx.ob(
+        A.PLAN,
+        vals[0] if vals else None,
+        ok and not inherited,
+        "CONTEXT_ID is a fresh per-process unique token (uuid)"
+        + ("" if not inherited else " — it can be inherited from the environment: child processes share the parent's intermediate directory and delete it at their exit"),
+        sel="cleanup:context-id",
+        loc=f"{m.relpath}:{getattr(vals[0], 'lineno', 1) if vals else 1}",
+    )
 
 
 @rule("META-1", props=["C12"], floor=5)
